@@ -5,7 +5,7 @@ C12 - Red Hat notation round-trips and rejects mismatching scores.
     outcome must be one of the outcomes the model admits).
 """
 
-from .. import core, spaces, sweep
+from .. import core, observe, spaces, sweep
 from ..engine import product
 from ..engine.product import Block
 from ..ref import rh, score2, score3, score4, tables as T
@@ -39,6 +39,35 @@ def judge_roundtrip(fam, vec):
     if y.scores() != x.scores() or y.clean_vector() != x.clean_vector():
         return "from_rh_vector(%r) differs in scores/cleaned vector" % (text,)
     return None
+
+
+def _full_task(fam):
+    """Scale: vectors in which EVERY metric of the version is present (defined values rotated, a few
+    explicit Not Defined), in three field orders, plus the covering seeds."""
+    acc = sweep.new_acc()
+    tab = T.METRICS[fam]
+    nd = T.ND[fam]
+    vecs = [s for s, _ in observe.covering_seeds(fam, 40)]
+    for k in range(60):
+        asg = {}
+        for i, m in enumerate(tab):
+            dom = [v for v in tab[m] if v != nd] if (k + i) % 9 else tab[m]
+            asg[m] = dom[(k + i) % len(dom)]
+        order = list(tab)
+        vecs.append(T.spell(fam, asg, order))
+        vecs.append(T.spell(fam, asg, order[::-1]))
+        vecs.append(T.spell(fam, asg, order[1::2] + order[0::2]))
+    for vec in vecs:
+        acc["n"] += 1
+        acc["calls"] += 6
+        acc["cmp"] += 2
+        why = judge_roundtrip(fam, vec)
+        if why:
+            sweep.bad(acc, {"what": "%s(%r): %s" % (T.CLASSNAME[fam], vec, why), "kind": "roundtrip",
+                            "input": vec, "family": fam, "signature": {"kind": "roundtrip"}})
+        else:
+            acc["nontrivial"] += 1
+    return acc
 
 
 def visit(acc, blk, vec, asg, idx):
@@ -101,9 +130,16 @@ def judge_accept(major, text):
             text, got, (" (%s)" % obj) if got == "FOREIGN" else "", sorted(admitted)), got
     if got == "ACCEPT":
         cls = {2: cvss.CVSS2, 3: cvss.CVSS3, 4: cvss.CVSS4}[major]
-        twin = cls(text.split("/", 1)[1])
-        if not (obj == twin) or obj.scores() != twin.scores():
-            return "from_rh_vector(%r) returned an object unlike the vector's own" % (text,), got
+        vec = text.split("/", 1)[1]
+        twin = cls(vec)
+        fam = T.family_of(major, vec)
+        try:
+            same = observe.observation(fam, obj) == observe.observation(fam, twin) and \
+                obj.as_json(sort=True) == twin.as_json(sort=True) and hash(obj) == hash(twin)
+        except Exception as e:  # noqa
+            return "an accessor of the object returned by from_rh_vector(%r) raised %s" % (text, type(e).__name__), got
+        if not (obj == twin) or not same:
+            return "from_rh_vector(%r) returned an object that behaves unlike one built from the vector itself" % (text,), got
     return None, got
 
 
@@ -133,12 +169,20 @@ def _acc_task(t):
     toks0 = _TOKS[toks_key]
     for vec in _VECS[(major, toks_key)][lo:hi]:
         toks = toks0 + near_tokens(major, vec)
+        repeat = False
         for tok in toks:
             text = tok + "/" + vec
             acc["n"] += 1
             acc["calls"] += 1
             acc["cmp"] += 1
             why, got = judge_accept(major, text)
+            if why is None and repeat:
+                # depth: the same string once more right after it was judged (a rejected string must
+                # stay rejected, whatever was accepted just before)
+                why, got = judge_accept(major, text)
+                repeat = False
+            if got == "ACCEPT":
+                repeat = True
             if why:
                 sweep.bad(acc, {"what": "CVSS%d %s" % (major, why), "kind": "rh_accept",
                                 "input": text, "major": major, "signature": {"kind": "rh_accept"}})
@@ -239,7 +283,8 @@ def run(ctx, res):
     global _VECS, _TOKS
     # (1) round trip
     blocks_ = blocks(ctx.tier)
-    tot = sweep.merge(product.run(ctx, blocks_, visit, sweep.new_acc))
+    accs_full = core.task_map(_full_task, list(T.FAMILIES))
+    tot = sweep.merge(product.run(ctx, blocks_, visit, sweep.new_acc) + accs_full)
     sweep.fill(res, ctx, tot, blocks_,
                "(1) every point of the listed blocks: rh_vector() text == '%.1f'%base + '/' + "
                "clean_vector(), from_rh_vector(rh_vector()) == x with the same scores.",
